@@ -145,7 +145,11 @@ func genExt4History(r *core.Rng, tier string, idx int, wide bool) *core.Trace {
 		}
 	}
 	for i := 0; i < nops; i++ {
-		switch r.PickW(10, 12, 24, 8, 8, 9, 6, 6, 6, 5, 3, 3, 2) {
+		switch r.PickW(10, 12, 24, 8, 8, 9, 6, 6, 6, 5, 3, 3, 2, 1) {
+		case 13:
+			// several hundred interleaved one-block appends to two files: more extents than four leaf blocks hold
+			// (84 per 1 KiB leaf, 340 per 4 KiB leaf)
+			t.Ops = append(t.Ops, core.Op{K: "fragment", P: pickDir(), A: r.Range(340, 420), B: 1024, C: 1})
 		case 12:
 			// fill the volume with files of mixed sizes until it refuses, free every other one, fill again
 			t.Ops = append(t.Ops, core.Op{K: "fillup", A: r.Range(0, 1000)})
@@ -843,7 +847,13 @@ func (x *ext4Run) step(o core.Op) *core.Violation {
 			}
 		}
 		rounds := o.A
-		if rounds > 20 {
+		if o.C == 1 {
+			// deep variant: enough extents per file for an extent tree with interior nodes (more than 4 leaves)
+			if rounds > 1100 {
+				rounds = 1100
+			}
+			x.res.Probe("extent-tree-depth2")
+		} else if rounds > 20 {
 			rounds = 20
 		}
 		chunk := o.B
